@@ -9,7 +9,7 @@ def world(bdir, mods, gmp=True, key=None):
     k = (bdir, tuple(mods), gmp, key)
     if k in _worlds:
         w = _worlds[k]; w.reset(); return w
-    w = World([build.module(bdir, m) for m in mods])
+    w = World([build.module(bdir, m) for m in mods]); w._key = (bdir, tuple(mods))
     stubs.install(w)
     if gmp: stubs.install_gmp(w)
     it = Interp(w)
